@@ -17,12 +17,28 @@ structure TI (s : Shared) (i : Nat) (t : Thread) : Prop where
   retired : (s.lc = .closed ∨ s.lc = .deleted) → t.bodyRegion = false
   deleted : s.lc = .deleted → t.dropRegion = false
   snap : ∀ snap r, t.pc = .dDel snap r → ∀ o ∈ s.store, o ∈ snap
+  storeEmpty : t.pc = .dStore → s.store = []
+  relDel : t.pc = .dRelease true → s.lc = .deleted
+  closerLc : t.closeRegion = true → s.lc = .closing ∨ s.lc = .deleting
+  dropLc : t.dropStarted = true → s.lc ≠ .active
+  pre : t.preBody = true → writesBy i s.log = 0
+
+/-- what a log entry may look like: a mutator never wrote while CLOSED / DELETED, `close` only while
+CLOSING (or DELETING, when a delete began during its flush), `drop_data` never while ACTIVE / after DELETED -/
+def entryOK (e : Nat × L × W) : Prop :=
+  match e.2.2 with
+  | .mut => e.2.1 ≠ .closed ∧ e.2.1 ≠ .deleted
+  | .close => e.2.1 = .closing ∨ e.2.1 = .deleting
+  | .drop => e.2.1 ≠ .active ∧ e.2.1 ≠ .deleted
 
 structure Inv (c : Cfg) : Prop where
   gate : ∀ w, c.s.gateW = some w → c.s.gateR = []
   boundW : ∀ w, c.s.gateW = some w → w < c.ts.length
   boundR : ∀ r ∈ c.s.gateR, r < c.ts.length
   thr : ∀ i t, c.ts[i]? = some t → TI c.s i t
+  delEmpty : c.s.lc = .deleted → c.s.store = []
+  logB : ∀ e ∈ c.s.log, e.1 < c.ts.length
+  logSound : ∀ e ∈ c.s.log, entryOK e
 
 /-- what one step / one cancellation of thread `i` may do to the shared state -/
 structure Eff (i : Nat) (s s' : Shared) (t : Thread) : Prop where
@@ -33,6 +49,14 @@ structure Eff (i : Nat) (s s' : Shared) (t : Thread) : Prop where
     (s'.gateW = (if s.gateW = some i then none else s.gateW) ∧ s'.gateR = s.gateR.filter (· ≠ i))
   lc : s'.lc = s.lc ∨ (s'.lc ≠ .closed ∧ s'.lc ≠ .deleted) ∨ t.holdsExcl = true
   store : s'.store = s.store ∨ t.holdsExcl = true ∨ t.holdsShared = true
+  lcAct : s'.lc = .active → s.lc = .active
+  lcDel : s.lc = .deleted → s'.lc = .deleted ∨ t.bodyRegion = true
+  lcClose : s'.lc = s.lc ∨ s'.lc = .deleting ∨ s.lc = .active ∨ t.holdsExcl = true ∨ t.holdsShared = true
+  becomesDeleted : s'.lc = .deleted → s.lc = .deleted ∨ (t.pc = .dStore ∧ s'.store = s.store)
+  storeRegion : s'.store = s.store ∨ t.bodyRegion = true ∨ t.dropRegion = true
+  log : s'.log = s.log ∨ (s'.log = (i, s.lc, .mut) :: s.log ∧ t.mutBody = true) ∨
+    (s'.log = (i, s.lc, .close) :: s.log ∧ t.closeRegion = true) ∨
+    (s'.log = (i, s.lc, .drop) :: s.log ∧ t.dropRegion = true)
 
 theorem poisonL_cases (l : L) : poisonL l = l ∨ poisonL l = .poisoned := by
   cases l <;> simp [poisonL]
@@ -40,9 +64,17 @@ theorem poisonL_cases (l : L) : poisonL l = l ∨ poisonL l = .poisoned := by
 theorem poisonL_ne_active (l : L) : poisonL l ≠ .active := by
   cases l <;> simp [poisonL]
 
+theorem poisonL_eq_deleted {l : L} (h : poisonL l = .deleted) : l = .deleted := by
+  cases l <;> simp_all [poisonL]
+
+theorem writesBy_cons_ne {i j : Nat} {l : L} {w : W} {log : List (Nat × L × W)} (h : j ≠ i) :
+    writesBy i ((j, l, w) :: log) = writesBy i log := by
+  have : ((j, l, w).1 == i) = false := by simpa using h
+  simp [writesBy, this]
+
 /-! ### a step of thread `i`: effect on the shared state, and on `i`'s own invariant -/
 
-set_option maxHeartbeats 1000000 in
+set_option maxHeartbeats 2000000 in
 theorem stepT_eff {i : Nat} {s s' : Shared} {t t' : Thread}
     (h : stepT i s t = some (s', t')) : Eff i s s' t := by
   unfold stepT at h
@@ -52,14 +84,16 @@ theorem stepT_eff {i : Nat} {s s' : Shared} {t t' : Thread}
   all_goals (simp only [Option.some.injEq, Prod.mk.injEq] at h; obtain ⟨rfl, rfl⟩ := h)
   all_goals
     constructor <;>
-    simp_all [Thread.holdsExcl, Thread.holdsShared, Shared.release, Shared.putObj, Shared.delObj]
-  all_goals (rcases poisonL_cases s.lc with hp | hp <;> simp [hp])
+    simp_all [Thread.holdsExcl, Thread.holdsShared, Thread.bodyRegion, Thread.dropRegion, Thread.closeRegion,
+      Thread.mutBody, Shared.release, Shared.putObj, Shared.delObj]
+  all_goals (try (rcases poisonL_cases s.lc with hp | hp <;> simp [hp]; done))
+  all_goals (try (cases hl : s.lc <;> simp_all [poisonL]; done))
 
-set_option maxHeartbeats 1000000 in
+set_option maxHeartbeats 2000000 in
 theorem stepT_self {i : Nat} {s s' : Shared} {t t' : Thread}
     (h : stepT i s t = some (s', t')) (hti : TI s i t) (hg : ∀ w, s.gateW = some w → s.gateR = []) :
     TI s' i t' := by
-  obtain ⟨he, hs, hr, hd, hsn⟩ := hti
+  obtain ⟨he, hs, hr, hd, hsn, hse, hrd, hcl, hdl, hpre⟩ := hti
   unfold stepT at h
   split at h
   all_goals (repeat' split at h)
@@ -67,23 +101,44 @@ theorem stepT_self {i : Nat} {s s' : Shared} {t t' : Thread}
   all_goals (simp only [Option.some.injEq, Prod.mk.injEq] at h; obtain ⟨rfl, rfl⟩ := h)
   all_goals
     constructor <;>
-    simp_all [Thread.holdsExcl, Thread.holdsShared, Thread.bodyRegion, Thread.dropRegion, Shared.release,
-      Shared.putObj, Shared.delObj, ensureMutable]
-  all_goals (rename_i heq; split at heq <;> simp_all)
+    simp_all [Thread.holdsExcl, Thread.holdsShared, Thread.bodyRegion, Thread.dropRegion, Thread.closeRegion,
+      Thread.dropStarted, Thread.preBody, Shared.release, Shared.putObj, Shared.delObj, ensureMutable]
+  all_goals (try (rename_i heq; split at heq <;> simp_all; done))
+  all_goals (try (exact List.eq_nil_iff_forall_not_mem.mpr (by assumption)))
+  all_goals (try (cases hl : s.lc <;> simp_all [poisonL]; done))
 
 theorem cancelT_eff (i : Nat) (s : Shared) (t : Thread) : Eff i s (cancelT i s t).1 t := by
   unfold cancelT
   split
-  · exact ⟨.inl ⟨rfl, rfl⟩, .inl rfl, .inl rfl⟩
-  · exact ⟨.inl ⟨rfl, rfl⟩, .inl rfl, .inl rfl⟩
-  · constructor
-    · right; right; right
-      by_cases ha : t.armed = true <;> simp [ha, Shared.release]
-    · by_cases ha : t.armed = true
+  · exact ⟨.inl ⟨rfl, rfl⟩, .inl rfl, .inl rfl, id, .inl, .inl rfl, fun h => .inl h, .inl rfl, .inl rfl⟩
+  · exact ⟨.inl ⟨rfl, rfl⟩, .inl rfl, .inl rfl, id, .inl, .inl rfl, fun h => .inl h, .inl rfl, .inl rfl⟩
+  · by_cases ha : t.armed = true
+    · have hlease : t.holdsExcl = true ∨ t.holdsShared = true := by
+        unfold Thread.armed at ha
+        split at ha <;> simp_all [Thread.holdsExcl, Thread.holdsShared]
+        all_goals (cases t.excl <;> simp)
+      constructor
+      · right; right; right; simp [ha, Shared.release]
       · rcases poisonL_cases s.lc with hp | hp <;> simp [ha, Shared.release, hp]
-      · simp [ha, Shared.release]
-    · left
-      by_cases ha : t.armed = true <;> simp [ha, Shared.release]
+      · left; simp [ha, Shared.release]
+      · intro h; simp [ha, Shared.release] at h; exact absurd h (poisonL_ne_active _)
+      · intro h; left; simp [ha, Shared.release, h, poisonL]
+      · rcases hlease with h | h
+        · right; right; right; left; exact h
+        · right; right; right; right; exact h
+      · intro h; left; simp [ha, Shared.release] at h; exact poisonL_eq_deleted h
+      · left; simp [ha, Shared.release]
+      · left; simp [ha, Shared.release]
+    · constructor
+      · right; right; right; simp [ha, Shared.release]
+      · left; simp [ha, Shared.release]
+      · left; simp [ha, Shared.release]
+      · intro h; simpa [ha, Shared.release] using h
+      · intro h; left; simpa [ha, Shared.release] using h
+      · left; simp [ha, Shared.release]
+      · intro h; left; simpa [ha, Shared.release] using h
+      · left; simp [ha, Shared.release]
+      · left; simp [ha, Shared.release]
 
 theorem cancelT_self {i : Nat} {s : Shared} {t : Thread} (hti : TI s i t) :
     TI (cancelT i s t).1 i (cancelT i s t).2 := by
@@ -91,12 +146,14 @@ theorem cancelT_self {i : Nat} {s : Shared} {t : Thread} (hti : TI s i t) :
   split
   · exact hti
   · exact hti
-  · obtain ⟨he, hs, hr, hd, hsn⟩ := hti
+  · obtain ⟨he, hs, hr, hd, hsn, hse, hrd, hcl, hdl, hpre⟩ := hti
     by_cases ha : t.armed = true
     · constructor <;>
-        simp_all [Thread.holdsExcl, Thread.holdsShared, Thread.bodyRegion, Thread.dropRegion, Shared.release]
+        simp_all [Thread.holdsExcl, Thread.holdsShared, Thread.bodyRegion, Thread.dropRegion, Thread.closeRegion,
+          Thread.dropStarted, Thread.preBody, Shared.release]
     · constructor <;>
-        simp_all [Thread.holdsExcl, Thread.holdsShared, Thread.bodyRegion, Thread.dropRegion, Shared.release]
+        simp_all [Thread.holdsExcl, Thread.holdsShared, Thread.bodyRegion, Thread.dropRegion, Thread.closeRegion,
+          Thread.dropStarted, Thread.preBody, Shared.release]
 
 /-! ### frame: what the step of another thread preserves -/
 
@@ -107,6 +164,10 @@ theorem bodyRegion_lease {t : Thread} (h : t.bodyRegion = true) : t.holdsExcl = 
 
 theorem dropRegion_excl {t : Thread} (h : t.dropRegion = true) : t.holdsExcl = true := by
   unfold Thread.dropRegion at h
+  split at h <;> simp_all [Thread.holdsExcl]
+
+theorem closeRegion_excl {t : Thread} (h : t.closeRegion = true) : t.holdsExcl = true := by
+  unfold Thread.closeRegion at h
   split at h <;> simp_all [Thread.holdsExcl]
 
 /-- if thread `i` holds the exclusive gate, no other thread holds any lease -/
@@ -141,6 +202,17 @@ theorem no_excl_of_other_shared {s : Shared} {i j : Nat} {t u : Thread}
     have : i ∈ s.gateR := hti.shared.mp hx
     rw [hr] at this
     exact absurd this (List.not_mem_nil)
+
+/-- while `u` (thread `j`) holds the exclusive gate, a step of another thread `i` leaves the store alone -/
+theorem store_frame {i j : Nat} {s s' : Shared} {t u : Thread}
+    (hg : ∀ w, s.gateW = some w → s.gateR = []) (hti : TI s i t) (htj : TI s j u) (hij : i ≠ j)
+    (he : Eff i s s' t) (hux : u.holdsExcl = true) : s'.store = s.store := by
+  rcases he.store with h | hx | hx
+  · exact h
+  · have := (no_lease_of_other_excl hg hti htj hij hx).1
+    rw [this] at hux; exact absurd hux (by simp)
+  · have := no_excl_of_other_shared hg hti htj hx
+    rw [this] at hux; exact absurd hux (by simp)
 
 theorem frame {i j : Nat} {s s' : Shared} {t u : Thread}
     (hg : ∀ w, s.gateW = some w → s.gateR = []) (hti : TI s i t) (htj : TI s j u) (hij : i ≠ j)
@@ -207,12 +279,37 @@ theorem frame {i j : Nat} {s s' : Shared} {t u : Thread}
   · -- a dropper's listing still covers the store
     intro snap r hpc o ho
     have hux : u.holdsExcl = true := by simp [Thread.holdsExcl, hpc]
-    rcases he.store with h | hx | hx
-    · rw [h] at ho; exact htj.snap snap r hpc o ho
-    · have := (no_lease_of_other_excl hg hti htj hij hx).1
+    rw [store_frame hg hti htj hij he hux] at ho
+    exact htj.snap snap r hpc o ho
+  · intro hpc
+    have hux : u.holdsExcl = true := by simp [Thread.holdsExcl, hpc]
+    rw [store_frame hg hti htj hij he hux]
+    exact htj.storeEmpty hpc
+  · intro hpc
+    have hd := htj.relDel hpc
+    rcases he.lcDel hd with h | h
+    · exact h
+    · have := hti.retired (.inr hd); rw [this] at h; exact absurd h (by simp)
+  · intro hc
+    have hux := closeRegion_excl hc
+    have hcur := htj.closerLc hc
+    rcases he.lcClose with h | h | h | h | h
+    · rw [h]; exact hcur
+    · right; exact h
+    · rcases hcur with h' | h' <;> (rw [h] at h'; exact absurd h' (by simp))
+    · have := (no_lease_of_other_excl hg hti htj hij h).1
       rw [this] at hux; exact absurd hux (by simp)
-    · have := no_excl_of_other_shared hg hti htj hx
+    · have := no_excl_of_other_shared hg hti htj h
       rw [this] at hux; exact absurd hux (by simp)
+  · intro hd h
+    exact htj.dropLc hd (he.lcAct h)
+  · intro hp
+    have h0 := htj.pre hp
+    rcases he.log with h | ⟨h, _⟩ | ⟨h, _⟩ | ⟨h, _⟩
+    · rw [h]; exact h0
+    · rw [h, writesBy_cons_ne hij]; exact h0
+    · rw [h, writesBy_cons_ne hij]; exact h0
+    · rw [h, writesBy_cons_ne hij]; exact h0
 
 /-- the gate keeps its shape (writer ⇒ no readers; only existing threads hold it) -/
 theorem gate_shape {i n : Nat} {s s' : Shared} {t : Thread} (hi : i < n)
@@ -249,10 +346,19 @@ theorem gate_shape {i n : Nat} {s s' : Shared} {t : Thread} (hi : i < n)
 theorem inv_init (store : List Nat) : Inv (init store) := by
   constructor <;> simp [init]
 
+theorem writesBy_zero_of_bound {n : Nat} {log : List (Nat × L × W)} (h : ∀ e ∈ log, e.1 < n) : writesBy n log = 0 := by
+  unfold writesBy
+  rw [List.length_eq_zero_iff, List.filter_eq_nil_iff]
+  intro e he hc
+  have := h e he
+  have : e.1 = n := by simpa using hc
+  omega
+
 theorem fresh_TI (k : Kind) (b : List B) (s : Shared) (n : Nat)
-    (hw : s.gateW ≠ some n) (hr : n ∉ s.gateR) : TI s n (fresh k b) := by
+    (hw : s.gateW ≠ some n) (hr : n ∉ s.gateR) (hl : writesBy n s.log = 0) : TI s n (fresh k b) := by
   cases k <;>
-    (constructor <;> simp_all [fresh, Thread.holdsExcl, Thread.holdsShared, Thread.bodyRegion, Thread.dropRegion])
+    (constructor <;> simp_all [fresh, Thread.holdsExcl, Thread.holdsShared, Thread.bodyRegion, Thread.dropRegion,
+      Thread.closeRegion, Thread.dropStarted, Thread.preBody])
 
 theorem inv_update {c : Cfg} {i : Nat} {t t' : Thread} {s' : Shared} (hinv : Inv c)
     (hget : c.ts[i]? = some t) (he : Eff i c.s s' t) (hself : TI s' i t') :
@@ -260,7 +366,7 @@ theorem inv_update {c : Cfg} {i : Nat} {t t' : Thread} {s' : Shared} (hinv : Inv
   have hi : i < c.ts.length := (List.getElem?_eq_some_iff.mp hget).1
   have hti : TI c.s i t := hinv.thr i t hget
   obtain ⟨h1, h2, h3⟩ := gate_shape hi hinv.gate hinv.boundW hinv.boundR he
-  refine ⟨h1, ?_, ?_, ?_⟩
+  refine ⟨h1, ?_, ?_, ?_, ?_, ?_, ?_⟩
   · intro w h; simpa using h2 w h
   · intro r h; simpa using h3 r h
   · intro j u hj
@@ -270,12 +376,61 @@ theorem inv_update {c : Cfg} {i : Nat} {t t' : Thread} {s' : Shared} (hinv : Inv
       subst hj; exact hself
     · rw [List.getElem?_set_ne hij] at hj
       exact frame hinv.gate hti (hinv.thr j u hj) hij he
+  · -- DELETED ⇒ nothing stored
+    intro hd
+    show s'.store = []
+    rcases he.becomesDeleted hd with h | ⟨hpc, hst⟩
+    · have hb := hti.retired (.inr h)
+      have hdr := hti.deleted h
+      rcases he.storeRegion with h' | h' | h'
+      · rw [h']; exact hinv.delEmpty h
+      · rw [hb] at h'; exact absurd h' (by simp)
+      · rw [hdr] at h'; exact absurd h' (by simp)
+    · rw [hst]; exact hti.storeEmpty hpc
+  · -- log entries name existing threads
+    intro e hel
+    show e.1 < (c.ts.set i t').length
+    rw [List.length_set]
+    have hel' : e ∈ s'.log := hel
+    rcases he.log with h | ⟨h, _⟩ | ⟨h, _⟩ | ⟨h, _⟩
+    · rw [h] at hel'; exact hinv.logB e hel'
+    all_goals
+      rw [h] at hel'
+      rcases List.mem_cons.mp hel' with h' | h'
+      · rw [h']; exact hi
+      · exact hinv.logB e h'
+  · -- log entries are sound
+    intro e hel
+    have hel' : e ∈ s'.log := hel
+    rcases he.log with h | ⟨h, hr⟩ | ⟨h, hr⟩ | ⟨h, hr⟩
+    · rw [h] at hel'; exact hinv.logSound e hel'
+    · rw [h] at hel'
+      rcases List.mem_cons.mp hel' with h' | h'
+      · rw [h']
+        have hb : t.bodyRegion = true := by
+          unfold Thread.mutBody at hr; split at hr <;> simp_all [Thread.bodyRegion]
+        refine ⟨?_, ?_⟩
+        · intro hl; have := hti.retired (.inl hl); rw [hb] at this; exact absurd this (by simp)
+        · intro hl; have := hti.retired (.inr hl); rw [hb] at this; exact absurd this (by simp)
+      · exact hinv.logSound e h'
+    · rw [h] at hel'
+      rcases List.mem_cons.mp hel' with h' | h'
+      · rw [h']; exact hti.closerLc hr
+      · exact hinv.logSound e h'
+    · rw [h] at hel'
+      rcases List.mem_cons.mp hel' with h' | h'
+      · rw [h']
+        have hds : t.dropStarted = true := by
+          unfold Thread.dropRegion at hr; split at hr <;> simp_all [Thread.dropStarted]
+        refine ⟨hti.dropLc hds, ?_⟩
+        intro hl; have := hti.deleted hl; rw [hr] at this; exact absurd this (by simp)
+      · exact hinv.logSound e h'
 
 theorem inv_apply {c : Cfg} (hinv : Inv c) (e : Ev) : Inv (c.apply e) := by
   cases e with
   | spawn k b =>
     simp only [Cfg.apply]
-    refine ⟨hinv.gate, ?_, ?_, ?_⟩
+    refine ⟨hinv.gate, ?_, ?_, ?_, hinv.delEmpty, ?_, hinv.logSound⟩
     · intro w h; have := hinv.boundW w h; simp; omega
     · intro r h; have := hinv.boundR r h; simp; omega
     · intro j u hj
@@ -294,6 +449,8 @@ theorem inv_apply {c : Cfg} (hinv : Inv c) (e : Ev) : Inv (c.apply e) := by
         apply fresh_TI
         · intro h; exact absurd (hinv.boundW _ h) (Nat.lt_irrefl _)
         · intro h; exact absurd (hinv.boundR _ h) (Nat.lt_irrefl _)
+        · exact writesBy_zero_of_bound hinv.logB
+    · intro e he; have := hinv.logB e he; simp; omega
   | step i =>
     simp only [Cfg.apply]
     cases hget : c.ts[i]? with
